@@ -1,5 +1,5 @@
 (* Props/C12.v - property theorems of C12: statements from Spec/StatementsIO.v. *)
-Require Import Boario.Spec.StatementsIO Boario.Proofs.C12Proofs.
+Require Import Boario.Spec.StatementsIO Boario.Proofs.C12Proofs Boario.Proofs.C12LblProofs.
 Theorem C12_total_holds : C12_total. Proof. exact c12_total. Qed.
 Print Assumptions C12_total_holds.
 Theorem C12_proportions_holds : C12_proportions. Proof. exact c12_proportions. Qed.
@@ -10,3 +10,5 @@ Theorem C12_product_holds : C12_product. Proof. exact c12_product. Qed.
 Print Assumptions C12_product_holds.
 Theorem C12_reject_holds : C12_reject. Proof. exact c12_reject. Qed.
 Print Assumptions C12_reject_holds.
+Theorem C12_labelled_holds : C12_labelled. Proof. exact c12_labelled. Qed.
+Print Assumptions C12_labelled_holds.
